@@ -43,7 +43,8 @@ func (s *Service) handleClientDisconnect(state *streamState, rlog logger.StyledL
 func writeStreamData(w http.ResponseWriter, data []byte, isStreaming bool, rc *http.ResponseController) (int, error) {
 	written, err := w.Write(data)
 	if err != nil {
-		return written, err
+		// the client's connection failed, not the backend's
+		return written, &core.ClientSideError{Err: err}
 	}
 
 	// Force data out for real-time streaming
